@@ -941,6 +941,11 @@ func (g *JSGen) Stmt(depth int) string {
 				// it ends up (arrow bodies, conditionals, sequences, nested assignments)
 				n := g.fresh()
 				var init string
+				// parts of these templates end up inside arrow function bodies, where `yield` / `await` of an
+				// enclosing generator / async function are not available (false alarm of the thorough tier:
+				// `for (var d = (k) => (j) => (… yield …)` inside an async generator was rejected, rightly)
+				saveAI, saveGI := g.inAsync, g.inGen
+				g.inAsync, g.inGen = 0, 0
 				switch r.Intn(7) {
 				case 5, 6:
 					// `in` under every operator that hands the for-init restriction down to an operand
@@ -968,6 +973,7 @@ func (g *JSGen) Stmt(depth int) string {
 				default:
 					init = "(" + g.Expr(depth-1) + ")"
 				}
+				g.inAsync, g.inGen = saveAI, saveGI
 				g.stat("for-init-expr")
 				g.push(false)
 				g.declare(jsVar{name: n, mutable: true})
